@@ -120,12 +120,12 @@ def gen(c):
 def cases(tier, seed):
     rng = np.random.default_rng(2000 + seed)
     out = []
-    n = 18 if tier == "quick" else 120
+    n = 18 if tier == "quick" else 240
     for k in range(n):
         model = ["aero", "as", "struct", "as", "struct", "multipoint"][k % 6]
         out.append(dict(kind="totals", model=model, seed=int(rng.integers(1 << 30)), solvers=bool(model in ("as", "multipoint") and k % 2 == 1),
                         _cost={"aero": 5, "as": 20, "struct": 6, "multipoint": 40}[model]))
-    for k in range(4 if tier == "quick" else 24):
+    for k in range(4 if tier == "quick" else 48):
         out.append(dict(kind="mphys", seed=int(rng.integers(1 << 30)), nsurf=1 + k % 3, compressible=bool(k % 2), _cost=6))
     return out
 
